@@ -441,6 +441,8 @@ func main() {
 	// database outcome x body size (portion counts derived from the limits found in doParse / doPush)
 	limits, limitsWhere := ScanLimits(ev.Repo())
 	inputs = append(inputs, GenerateDBX(genOpts{Thorough: r.Thorough()}, len(inputs), limits)...)
+	// interleaved history: B sent while another client's push waits for the retry of its refused INSERT
+	inputs = append(inputs, GenerateInterleaved(genOpts{Thorough: r.Thorough()}, inputs[:nMain], len(inputs))...)
 	byID := map[int]*Input{}
 	for i := range inputs {
 		byID[inputs[i].ID] = &inputs[i]
@@ -484,7 +486,7 @@ func main() {
 			if inputs[i].Gen == "size" {
 				k = nw + i%ks
 			}
-			if inputs[i].Gen == "dbx" {
+			if inputs[i].Gen == "dbx" || inputs[i].Gen == "ilv" {
 				k = nw + ks + i%kb
 			}
 			b, _ := json.Marshal(&inputs[i])
@@ -523,7 +525,7 @@ func main() {
 		if in.Gen == "size" {
 			return runWorker(plShared, f, 0, 1, 10*time.Second, noProgress)
 		}
-		if in.Gen == "dbx" {
+		if in.Gen == "dbx" || in.Gen == "ilv" {
 			return runWorker(pl, f, 0, 1, 30*time.Second, 90*time.Second)
 		}
 		return runWorker(pl, f, 0, 1, deadline, noProgress)
@@ -937,6 +939,21 @@ func judgeAll(r *ev.Run, inputs []Input, results map[int]Result, culprits []culp
 			r.Cap(fmt.Sprintf("input %d (%s): goroutines of the request were still working when the polling bound ended: %v", in.ID, in.Desc, res.Leaked))
 		} else if len(res.Leaked) > 0 {
 			violate(r, "goroutine_left_behind:"+strings.Fields(res.Leaked[0])[0]+":"+in.Family, describe(in)+fmt.Sprintf(": goroutines created by the request are still there after the grace period: %v", res.Leaked), in, res)
+		}
+		if res.Interleaved {
+			r.Transitions++
+			r.TracesValidated++
+			fam := followFamily(in)
+			if !res.AHeld {
+				r.Outcome("interleaving_not_achieved/" + fam)
+			} else {
+				r.Outcome(fmt.Sprintf("interleaved/%s a->%d compared=%d", fam, res.AStatus, res.ACompared))
+				if res.AStatus != familyOK[fam] {
+					violate(r, fmt.Sprintf("other_client_waiting_for_retry_answered_%d:%s", res.AStatus, shape(in)), describe(in)+fmt.Sprintf(": the other client's valid %s push, whose first INSERT was refused and whose retry succeeded, was answered %d instead of %d", fam, res.AStatus, familyOK[fam]), in, res)
+				} else if len(res.AAltered) > 0 {
+					violate(r, "other_client_rows_altered_while_waiting_for_retry:"+fam, describe(in)+fmt.Sprintf(": what ClickHouse finally received for the other client's acknowledged %s push differs from what that push yields alone: %v", fam, res.AAltered), in, res)
+				}
+			}
 		}
 		if res.FollowDone {
 			r.Transitions++
